@@ -32,6 +32,8 @@ func runC17(c *Ctx) {
 	runC17R6(c, "R6-pass-host-default")
 	r.Rule("R7-request-target-verbatim", "the director sends RequestURI verbatim after the original director, every reverse proxy gets it, routers match on the encoded path (upstream router iff proxyRawPath)", 4)
 	runC17R7(c, "R7-request-target-verbatim")
+	r.Rule("R8-flatten-lossless", "flattenHeaders writes back the join of exactly the values it ranged over", 1)
+	runC17R8(c, "R8-flatten-lossless")
 
 	// ---- R1 ---------------------------------------------------------------------------------
 	rule := "R1-request-writers"
@@ -605,4 +607,46 @@ func runC17R7(c *Ctx, rule string) {
 			c.bad(rule, key, p.Exit, sprintf("proxyRawPath=%v but the upstream router's encoded-path matching is %v", raw, enc), p, p.End())
 		}
 	})
+}
+
+// runC17R8: flattening multi-valued headers is lossless: the value written back under a name is
+// strings.Join(<the values ranged over for that name>, ",") of the untouched value slice — every client
+// value reaches the upstream, in order, repeats included.
+func runC17R8(c *Ctx, rule string) {
+	fn := c.Fn(rule, "pkg/middleware.flattenHeaders")
+	hdrSet := c.StdFunc(rule, "net/http.Header.Set")
+	if fn == nil || hdrSet == nil {
+		return
+	}
+	n := 0
+	for _, b := range fn.Blocks {
+		for _, in := range b.Instrs {
+			call, ok := in.(*ssa.Call)
+			if !ok || call.Call.StaticCallee() != hdrSet {
+				continue
+			}
+			n++
+			key := "flatten-lossless|" + fnKey(fn)
+			join, ok := unwrap0(call.Call.Args[2]).(*ssa.Call)
+			good := ok && isStd(&join.Call, "strings", "Join")
+			if good {
+				ex, isEx := unwrap0(join.Call.Args[0]).(*ssa.Extract)
+				_, fromRange := (ssa.Value)(nil), false
+				if isEx {
+					_, fromRange = ex.Tuple.(*ssa.Next)
+				}
+				nameEx, nameIsEx := unwrap0(call.Call.Args[1]).(*ssa.Extract)
+				sameIter := isEx && nameIsEx && nameEx.Tuple == ex.Tuple
+				good = fromRange && sameIter
+			}
+			if good {
+				c.ok(rule, key, in, "headers.Set(name, strings.Join(values, sep)) with name, values of the same range step")
+			} else {
+				c.R.Bad(rule, key, c.pos(in), "flattenHeaders writes back something other than the join of the very values it ranged over: values of a client's repeated header are dropped, reordered or altered on the way to the upstream", nil, nil)
+			}
+		}
+	}
+	if n == 0 {
+		c.R.Unknown(rule, "flatten-lossless|none", c.P.Pos(fn.Pos()), "flattenHeaders writes nothing back")
+	}
 }
